@@ -246,8 +246,7 @@ def evaluate(case):
                 add('ill-formed program', f'{e}\n{code}')
                 continue
             except Inconclusive as e:
-                classes.add((lang, 'inconclusive'))
-                V.append(('INCONCLUSIVE', str(e)))
+                classes.add((lang, 'inconclusive', str(e)[:60]))
                 continue
             for name in fs.opened:
                 if name != literal:
@@ -296,7 +295,26 @@ def run(tier):
               'confirmed correct'),
         assumptions=['foreign-language semantics are those encoded in dv/langs (DESIGN.md appendix A), read leniently where uncertain',
                      'host byte order little-endian'],
-        min_classes=20)
+        min_classes=20, class_guard=class_guard)
+
+
+def class_guard(classes):
+    """every language must have programs that were fully interpreted / executed and confirmed, for every type it is documented for"""
+    types, _ = doc_tables()
+    problems = []
+    confirmed = {}
+    inconclusive = sorted({c for c in classes if len(c) >= 2 and c[1] == 'inconclusive'})
+    for c in classes:
+        if len(c) == 3 and c[1] in types:
+            confirmed.setdefault(c[0], set()).add(c[1])
+    for lang in ALL_LANGS:
+        want = {t for t in types if lang == 'darr' or lang in types[t]}
+        missing = sorted(want - confirmed.get(lang, set()))
+        if missing:
+            problems.append(f'{lang}: no program confirmed for types {missing}')
+    if inconclusive:
+        problems.append(f'programs using unmodelled language features: {inconclusive}')
+    return problems, {'languages_confirmed': {k: len(v) for k, v in sorted(confirmed.items())}, 'inconclusive_programs': len(inconclusive)}
 
 
 def replay(rec):
